@@ -8,7 +8,7 @@ template <class T> struct Tag { using type = T; };
 using VecInt = std::vector<int>; using VecStr = std::vector<std::string>; using VecBool = std::vector<bool>; using VecPt = std::vector<Pt>; using VecVecInt = std::vector<std::vector<int>>; using Bytes = std::vector<uint8_t>; using Chars = std::vector<char>; using VecBytes = std::vector<std::vector<uint8_t>>;
 using VecOptInt = std::vector<std::optional<int>>; using VecDbl = std::vector<double>; using VecU16 = std::vector<std::u16string>;
 using A3 = std::array<int, 3>; using A2Str = std::array<std::string, 2>;
-using MapSI = std::map<std::string, int>; using MapIS = std::map<int, std::string>; using MapDbl = std::map<double, int>; using MapU64 = std::map<uint64_t, Pt>; using MapI8 = std::map<int8_t, int>; using MapEnum = std::map<Color, int>; using MapWs = std::map<std::wstring, int>; using MapU16 = std::map<std::u16string, std::string>;
+using MapSI = std::map<std::string, int>; using MapIS = std::map<int, std::string>; using MapDbl = std::map<double, int>; using MapU64 = std::map<uint64_t, Pt>; using MapU64I = std::map<uint64_t, int>; using MapI64S = std::map<int64_t, std::string>; using MapI8 = std::map<int8_t, int>; using MapEnum = std::map<Color, int>; using MapWs = std::map<std::wstring, int>; using MapU16 = std::map<std::u16string, std::string>;
 using MapSVec = std::map<std::string, std::vector<int>>; using MapSMap = std::map<std::string, std::map<std::string, int>>; using MapFloat = std::map<float, std::string>;
 using TpS = ch::time_point<ch::system_clock, ch::seconds>; using TpMs = ch::time_point<ch::system_clock, ch::milliseconds>; using TpNs = ch::time_point<ch::system_clock, ch::nanoseconds>; using TpUs = ch::time_point<ch::system_clock, ch::microseconds>; using TpMin = ch::time_point<ch::system_clock, ch::duration<int32_t, std::ratio<60>>>;
 using MapTp = std::map<TpS, int>; using MMapIS = std::multimap<int, std::string>; using MMapSS = std::multimap<std::string, int>; using UMapSI = std::unordered_map<std::string, int>; using UMapIS = std::unordered_map<int, std::string>; using UMMapIS = std::unordered_multimap<int, std::string>;
@@ -26,9 +26,9 @@ using OptVec = std::optional<std::vector<int>>; using UPtrVec = std::unique_ptr<
 	X(50, std::unordered_set<std::string>, 1) X(51, std::unordered_multiset<int>, 1) X(52, std::queue<int>, 1) X(53, std::stack<std::string>, 1) X(54, std::priority_queue<int>, 1) X(55, std::set<std::string>, 1) \
 	X(56, MapSI, 2) X(57, MapIS, 2) X(58, MapDbl, 2) X(59, MapU64, 2) X(60, MapI8, 2) X(61, MapEnum, 2) X(62, MapWs, 2) X(63, MapU16, 2) X(64, MapSVec, 2) X(65, MapSMap, 2) X(66, MapFloat, 2) X(67, MapTp, 2) \
 	X(68, MMapIS, 2) X(69, MMapSS, 2) X(70, UMapSI, 2) X(71, UMapIS, 2) X(72, UMMapIS, 2) X(73, PairIS, 2) X(74, PairSP, 2) X(75, TupISD, 2) X(76, TupNested, 2) \
-	X(77, std::optional<int>, 2) X(78, std::optional<std::string>, 2) X(79, std::optional<Pt>, 2) X(80, OptVec, 2) X(81, std::unique_ptr<Pt>, 2) X(82, std::unique_ptr<int>, 2) X(83, UPtrVec, 2) X(84, std::shared_ptr<std::string>, 2) X(85, SPtrMap, 2) X(86, std::shared_ptr<Derived>, 2) X(87, DerivedLate, 2) X(88, TwoBases, 2) X(89, std::vector<DerivedLate>, 2) X(90, LongKeys, 2) X(91, EmptyKey, 2)
+	X(77, std::optional<int>, 2) X(78, std::optional<std::string>, 2) X(79, std::optional<Pt>, 2) X(80, OptVec, 2) X(81, std::unique_ptr<Pt>, 2) X(82, std::unique_ptr<int>, 2) X(83, UPtrVec, 2) X(84, std::shared_ptr<std::string>, 2) X(85, SPtrMap, 2) X(86, std::shared_ptr<Derived>, 2) X(87, DerivedLate, 2) X(88, TwoBases, 2) X(89, std::vector<DerivedLate>, 2) X(90, LongKeys, 2) X(91, EmptyKey, 2) X(92, MapU64I, 2) X(93, MapI64S, 2)
 
-constexpr size_t group_first[] = { 0, 30, 56, 92 };
+constexpr size_t group_first[] = { 0, 30, 56, 94 };
 
 #ifndef MODEL_GROUP
 #define MODEL_GROUP -1
